@@ -275,6 +275,9 @@ func TestCheck(t *testing.T) {
 		Gen:     genPlan,
 		Expand:  expand,
 		Exec:    execPlan,
-		RequiredProbes: []string{"external-index-rewrite", "op-failed-after-fault", "disk-index-undecodable"},
+		// "disk-index-undecodable" was required until /repo d7730d7: since the index is replaced by rename, an injected
+		// write fault can no longer tear it; the branch stays for the day that regresses (a seeded change that drops the
+		// error of writeIndex is still caught through it, see seeded/C20-writeindex-error-lost)
+		RequiredProbes: []string{"external-index-rewrite", "op-failed-after-fault"},
 	})
 }
